@@ -193,5 +193,5 @@ def rule_coins(S, res):
                 res.bad("R4.b", "%s|%s" % (short, tail),
                         "challenge coins are drawn from a generator that was seeded by the initial coin toss, i.e. before the data under check was sent (the coins are predictable from the coin-toss openings)",
                         where(b, bi), key="R4.b|%s|%s" % (short, tail))
-    res.floor("challenge_draw_sites", n_draw, 3)
+    res.floor("challenge_draw_sites", n_draw, 1)
     res.count("generator_clone_sites", n_clone)
